@@ -1036,6 +1036,137 @@ def ob_relation_rules(ctx):
     return res
 
 
+def ob_unassigned_writer(ctx, n_jobs):
+    """C02 (writer side of job accounting): `create_unassigned` of the pragmatic writer (real MIR incl. the grouping of detailed
+    reasons by code) on a solution with `n_jobs` unassigned entries - each symbolically a customer job or a vehicle-bound one
+    (break / reload: carries a vehicle id and is not reported), with no code, one code, or per-vehicle codes (0-2 entries,
+    codes symbolic): every customer job is written exactly once, in order, with AT LEAST ONE reason; one reason per distinct
+    code; the vehicles listed under a reason are exactly the vehicles that reported that code."""
+    name = f'unassigned_writer[jobs={n_jobs}]'
+    res = Result(name)
+    res.bounds = f'{n_jobs} unassigned entries; kind (customer / vehicle-bound) and reason info (unknown / simple / detailed with 0-2 (vehicle, code) pairs, codes from 2 values) symbolic choices'
+    t0 = time.time()
+    fn = ctx.prog.find_free('create_unassigned')
+
+    class Env(CheckerEnv):
+        symbolic_maps = True
+
+        def override(self, engine, st, callee, args, dest_ty):
+            if callee.endswith('map_code_reason'):
+                code = deref_all(args[0])
+                c = code.fields[0].concrete()
+                return Agg('tuple', [Opaque(f'"CODE{c}"'), Opaque(f'"reason{c}"')], '')
+            return super().override(engine, st, callee, args, dest_ty)
+
+    env = Env(ctx.prog, ctx.layout, 8)
+    eng, _ = ctx.engines(env)
+    none = lambda ty: mk_option(False, ty=ty)
+
+    def body(st):
+        env.assumptions.clear()
+        vc = lambda c: Agg('struct', [IV(c, 'i32')], 'ViolationCode')
+
+        def actor(vid, shift):
+            veh = Agg('struct', [StateV({'vehicle_id': Opaque(f'"{vid}"'), 'shift_index': IV(shift)}) if f == 'dimens' else Opaque(f) for f in ctx.layout.fields('fleet::Vehicle')], 'fleet::Vehicle')
+            return ArcV(Cell(Agg('struct', [ArcV(Cell(veh)) if f == 'vehicle' else Opaque(f) for f in ctx.layout.fields('fleet::Actor')], 'fleet::Actor')))
+        actors = [actor('v1', 0), actor('v2', 1)]
+        entries, doc = [], []
+        for i in range(n_jobs):
+            k = z3.Int(f'job{i}_kind')
+            bound = eng.choose(st, [(k == 0, False), (k == 1, True)])
+            dim = {'job_id': Opaque(f'"job{i}"')}
+            if bound:
+                dim['vehicle_id'] = Opaque('"v1"')
+            single = ArcV(Cell(Agg('struct', [StateV(dim) if f == 'dimens' else VecV([]) for f in ctx.layout.fields('jobs::Single')], 'jobs::Single')))
+            job = EnumV('jobs::Job', 0, {0: [single]})
+            t = z3.Int(f'job{i}_info')
+            info_kind = eng.choose(st, [(t == 0, 'unknown'), (t == 1, 'simple'), (t == 2, 'detailed0'), (t == 3, 'detailed1'), (t == 4, 'detailed2')])
+            codes = []
+            if info_kind == 'unknown':
+                info = EnumV('context::UnassignmentInfo', 0, {})
+            elif info_kind == 'simple':
+                c = z3.Int(f'job{i}_code')
+                code = eng.choose(st, [(c == 1, 1), (c == 2, 2)])
+                codes = [code]
+                info = EnumV('context::UnassignmentInfo', 1, {1: [vc(code)]})
+            else:
+                nd = int(info_kind[-1])
+                pairs = []
+                for d in range(nd):
+                    c = z3.Int(f'job{i}_detail{d}_code')
+                    code = eng.choose(st, [(c == 1, 1), (c == 2, 2)])
+                    codes.append(code)
+                    pairs.append(Agg('tuple', [actors[d], vc(code)], ''))
+                info = EnumV('context::UnassignmentInfo', 2, {2: [VecV(pairs)]})
+            entries.append(Agg('tuple', [job, info], ''))
+            doc.append({'bound': bound, 'info': info_kind, 'codes': codes})
+        sol_fields = ctx.layout.fields('domain::Solution')
+        solution = Agg('struct', [VecV(entries) if f == 'unassigned' else Opaque(f) for f in sol_fields], 'domain::Solution')
+        return (doc, eng.exec_fn(st, fn, [RefV(Cell(solution), 0)]))
+
+    paths = eng.explore(body, max_paths=60000)
+    res.paths = len(paths)
+    res.functions |= eng.functions_used
+    saw_some = saw_none = False
+    for st, out in paths:
+        if out is None:
+            if not no_panic(ctx, res, env, st, what=name):
+                break
+            continue
+        doc, r = out
+        customers = [(i, d) for i, d in enumerate(doc) if not d['bound']]
+        problems = []
+        var = r.variant()
+        if not customers:
+            if var != 0:
+                problems.append('no customer job is unassigned but a list is written')
+        elif var != 1:
+            problems.append('customer jobs are unassigned but nothing is written')
+        else:
+            items = deref_all(r.payload[1][0]).items
+            ids = [deref_all(env.field(x, 'solution::model::UnassignedJob', 'job_id')).name.strip('"') for x in items]
+            if ids != [f'job{i}' for i, _ in customers]:
+                problems.append(f'written ids {ids}, expected {[f"job{i}" for i, _ in customers]}')
+            else:
+                for x, (i, d) in zip(items, customers):
+                    reasons = env.field(x, 'solution::model::UnassignedJob', 'reasons').items
+                    got = []
+                    for rs in reasons:
+                        code = deref_all(env.field(rs, 'solution::model::UnassignedJobReason', 'code')).name.strip('"')
+                        det = env.field(rs, 'solution::model::UnassignedJobReason', 'details')
+                        vs = None
+                        if det.variant() == 1:
+                            vs = [(deref_all(env.field(dd, 'solution::model::UnassignedJobDetail', 'vehicle_id')).name.strip('"'),
+                                   env.field(dd, 'solution::model::UnassignedJobDetail', 'shift_index').concrete()) for dd in deref_all(det.payload[1][0]).items]
+                        got.append((code, vs))
+                    if d['info'] in ('unknown', 'detailed0'):
+                        want = [('CODE0', None)]
+                    elif d['info'] == 'simple':
+                        want = [(f'CODE{d["codes"][0]}', None)]
+                    else:
+                        want = []
+                        for c in sorted(set(d['codes']), key=d['codes'].index):
+                            want.append((f'CODE{c}', sorted([('v1', 0), ('v2', 1)][k] for k, cc in enumerate(d['codes']) if cc == c)))
+                    if not got:
+                        problems.append(f'job{i} is written without a reason')
+                    elif sorted(got, key=str) != sorted(want, key=str):
+                        problems.append(f'job{i} ({d}): reasons {got}, expected {want}')
+        if not decide_claim(ctx, res, env, st, z3.BoolVal(not problems), what=f'{name}: entries {doc}: ' + '; '.join(problems)[:400]):
+            if res.status == 'violated':
+                res.case = {'kind': 'unassigned_writer', 'entries': doc}
+            break
+        if not no_panic(ctx, res, env, st, what=name):
+            break
+        saw_some = saw_some or bool(customers)
+        saw_none = saw_none or not customers
+    if res.status == 'holds':
+        res.witnesses = int(saw_some) + int(saw_none)
+        if not (saw_some and saw_none):
+            res.status, res.detail = 'inconclusive', 'vacuous'
+    res.time = time.time() - t0
+    return res
+
+
 def rules_problem(job, dims, costs=None):
     far = rfc3339(30 * 86400)
     return {'plan': {'jobs': [job]},
